@@ -1,6 +1,8 @@
 package scenario
 
 import (
+	"math/big"
+
 	"ionsim/prng"
 )
 
@@ -257,4 +259,43 @@ func hostileAtomsDoc(r *prng.Rand) ([]byte, []string) {
 		kinds = append(kinds, kind)
 	}
 	return out, kinds
+}
+
+// fractionNotBelowOne builds a correctly framed binary timestamp (to the second, UTC) whose fractional seconds are one
+// or more: the coefficient is at least 10^digits, with magnitudes around 2^63 and 2^64 and beyond among them.
+func fractionNotBelowOne(r *prng.Rand) []byte {
+	digits := r.Range(1, 12)
+	pow := new(big.Int).Exp(big.NewInt(10), big.NewInt(int64(digits)), nil)
+	coef := new(big.Int)
+	switch r.Intn(7) {
+	case 0:
+		coef.Set(pow)
+	case 1:
+		coef.Add(pow, big.NewInt(int64(1+r.Intn(9))))
+	case 2:
+		coef.Lsh(big.NewInt(1), 63)
+	case 3:
+		coef.Lsh(big.NewInt(1), 64)
+	case 4:
+		coef.Add(new(big.Int).Lsh(big.NewInt(1), 64), big.NewInt(int64(r.Intn(1000))))
+	case 5:
+		coef.Mul(new(big.Int).Lsh(big.NewInt(1), 64), big.NewInt(int64(1+r.Intn(2000))))
+		coef.Add(coef, big.NewInt(int64(r.Intn(1000))))
+	default:
+		coef.Mul(pow, big.NewInt(int64(2+r.Intn(1000000))))
+	}
+	if coef.Cmp(pow) < 0 {
+		coef.Add(coef, pow)
+	}
+	mag := coef.Bytes()
+	if mag[0]&0x80 != 0 {
+		mag = append([]byte{0}, mag...)
+	}
+	p := []byte{0x80}
+	for _, f := range []uint64{uint64(1970 + r.Intn(60)), uint64(1 + r.Intn(12)), uint64(1 + r.Intn(28)), uint64(r.Intn(24)), uint64(r.Intn(60)), uint64(r.Intn(60))} {
+		p = append(p, varUIntBytes(f, false)...)
+	}
+	p = append(p, varIntBytes(uint64(digits), true)...)
+	p = append(p, mag...)
+	return tlv(6, p)
 }
